@@ -311,6 +311,7 @@ def _open_one(pnc, path, cid, **kw):
 
 USER = 'userpkg.readers.rawgrid'
 REG = '@reg'
+ASPATH = '@path'        # from here on the paths are handed over as pathlib.Path objects
 
 
 def _register_user_reader():
@@ -336,16 +337,21 @@ def _run_history(pool, classes, hist, probe, named):
     cid = {c: i for i, c in enumerate(classes)}
     cid[USER] = len(classes)
     steps = []
+    aspath = False
     for key, fmt in hist + [[probe, None]]:
         if key == REG:
             _register_user_reader()
+            continue
+        if key == ASPATH:
+            aspath = True
             continue
         kw = dict(format=fmt) if fmt else {}
         if key == 'x_uamivle':
             kw = dict(format='uamiv', endian='little')
         if key == 'x_ffisubs':
             kw = dict(format='ffi1001', keysubs={'-': '_', '.': '_', '/': '_'})
-        r = _open_one(pnc, pool[key], cid, **kw)
+        import pathlib
+        r = _open_one(pnc, pathlib.Path(pool[key]) if aspath else pool[key], cid, **kw)
         r['reg'] = [k for k, v in g._readers]
         steps.append(r)
     res = dict(steps=steps)
@@ -389,6 +395,12 @@ def _names_for(base, key, rng):
     """a registered name of a reader that accepts the file (or, sometimes, any name)"""
     acc = base['acc'][key]['yes']
     names = [k for k, c in base['reg'] if c in acc and '.' not in k and k != 'Dataset']
+    if names and rng.random() < 0.12:
+        # a spelling that is not a registered name (other case, blanks around it): refused, and nothing is remembered
+        nm = rng.choice(names)
+        alt = rng.choice([nm.capitalize(), nm.upper(), ' ' + nm, nm + ' '])
+        if alt not in [k for k, c in base['reg']]:
+            return alt
     if names and rng.random() < 0.85:
         return rng.choice(names)
     return rng.choice([k for k, c in base['reg'] if '.' not in k])
@@ -424,7 +436,13 @@ def gen(rng, tier):
             hist.append([rng.choice(['hum_a_own', 'hum_a_noext', 'hum_b_own', 'hum_b_noext', 'x_uamivle']), None])
             if rng.random() < 0.6:
                 probe = rng.choice(['hum_a_own', 'hum_a_noext', 'hum_b_own', 'hum_b_noext', 'uamivgen_noext', 'uamiv_noext'])
+        if rng.random() < 0.15:
+            hist.insert(rng.randint(0, len(hist)), [ASPATH, None])
         out.append(dict(hist=hist, probe=probe))
+    # paths as pathlib.Path objects: the files whose extension decides between readers that all accept them
+    for pr in ['humidity_own', 'vertical_diffusivity_own', 'plain_own', 'hum_a_own', 'hum_b_own']:
+        if pr in P['files']:
+            out.append(dict(hist=[[ASPATH, None]], probe=pr))
     # structured: an auto-detecting open on which some reader's isMine raises, then a probe that reader accepts
     base = P['base']
     pairs = []
@@ -494,6 +512,8 @@ def to_line(case, res):
             # the metaclass registers the short name, then the long one (each goes to the front)
             opens += ['reg:rawgrid:%d' % uid, 'reg:readers.rawgrid:%d' % uid]
             continue
+        if key == ASPATH:
+            continue
         a = base['acc'][key]
         yes = list(a['yes']) + ([uid] if key.startswith('rawgrid') else [])
         ext = _ext(P['files'][key]) or '-'
@@ -502,7 +522,7 @@ def to_line(case, res):
         if key == 'x_ffisubs':
             fmt = 'ffi1001'
         opens.append('%s/%s/%s/%s' % (ext, '+'.join(map(str, yes)) or '-',
-                                      '+'.join(map(str, a['raises'])) or '-', fmt or '-'))
+                                      '+'.join(map(str, a['raises'])) or '-', (fmt or '-').replace(',', '_').replace(' ', '_')))
     return 'c15 events %s %s' % (reg, ','.join(opens))
 
 
